@@ -97,9 +97,9 @@ def _ill_case(rng, N, r, nm, few=False):
     steps = [{'t': 'rt', 'modes': modes, 'normalize': True, 'coords': G, 'coeffs': coeffs(), 'layout': dict(L)},
              {'t': 'span', 'modes': modes, 'coords': G, 'coeffs': coeffs(), 'layout': dict(L, opd='F')}]
     if not few:
-        steps += [{'t': 'rm', 'modes': modes, 'coords': G, 'opd': opd(), 'layout': dict(L)},
-                  {'t': 'rt', 'modes': modes[::-1], 'normalize': False, 'coords': G, 'coeffs': coeffs(), 'layout': dict(L, opd='T')},
-                  {'t': 'fit', 'modes': modes, 'normalize': True, 'coords': G, 'opd': opd(), 'layout': dict(L)}]
+        # only consistent (zero-residual) problems: for data with a residual the least-squares solution itself is sensitive to cond^2
+        steps += [{'t': 'rt', 'modes': modes[::-1], 'normalize': False, 'coords': G, 'coeffs': coeffs(), 'layout': dict(L, opd='T')},
+                  {'t': 'span', 'modes': modes[::-1], 'coords': G, 'coeffs': coeffs(), 'layout': dict(L)}]
     for s_ in steps: s_['modes_form'] = 'list'; s_['mask_outside'] = False
     return {'kind': 'illcond', 'shape': [N, N], 'mask': [float(x) for x in seg.ravel()], 'mask_dtype': 'float64', 'steps': steps, 'cond': cond,
             'oracle_only': True}
@@ -114,7 +114,7 @@ def generate(rng, tier):
     return out
 
 def _generate(rng, tier):
-    n = {'quick': 45, 'thorough': 700, 'search': 150}[tier]
+    n = {'quick': 30, 'thorough': 700, 'search': 100}[tier]
     kinds = ['circle', 'hexagon', 'segmented', 'offcentre', 'irregular']
     out = []
     for k in range(n):
@@ -306,7 +306,8 @@ def oracle(c, io):
     if c['cond'] > 1e9: return None      # modes not (numerically) independent on this mask: outside the property's hypothesis
     # a backward-stable least-squares solution is accurate to ~cond x machine epsilon (measured for pinv: ~1e-16 x cond); a solver that
     # squares the conditioning (normal equations) is off by ~cond^2 x epsilon and must not pass
-    tol = 1e-12 * max(c['cond'], 10.0)
+    tol = 1e-12 * max(c['cond'], 10.0)                 # consistent problems (compose -> fit, span -> remove)
+    tol_r = 1e-12 * max(c['cond'], 10.0) ** 2           # arbitrary data: the least-squares problem itself is sensitive to cond^2 x residual
     first = {}
     for i, (s, o) in enumerate(zip(c['steps'], io['steps'])):
         w = _where(c, i, s)
@@ -319,17 +320,17 @@ def oracle(c, io):
             if np.abs(o['rem']).max() > tol * sc: return f"{w}: removing the modes from an OPD made only of them leaves {np.abs(o['rem']).max():.3e}"
         elif s['t'] == 'rm':
             sc = max(1.0, np.abs(o['opd_in']).max())
-            if np.abs(o['fit_rem']).max() > tol * sc: return f"{w}: fit(remove(opd)) = {o['fit_rem']} is not zero"
-            if o['rem2_diff'] > tol * sc: return f"{w}: remove is not idempotent (max change {o['rem2_diff']:.3e})"
+            if np.abs(o['fit_rem']).max() > tol_r * sc: return f"{w}: fit(remove(opd)) = {o['fit_rem']} is not zero"
+            if o['rem2_diff'] > tol_r * sc: return f"{w}: remove is not idempotent (max change {o['rem2_diff']:.3e})"
         else:
             sc = max(1.0, np.abs(o['opd_in']).max())
             for a, b in zip(o['fit'], o['fit_rev']):
-                if abs(a - b) > tol * sc: return f"{w}: fit depends on the order of the requested modes: {o['fit']} vs {o['fit_rev']} (reversed request)"
+                if abs(a - b) > tol_r * sc: return f"{w}: fit depends on the order of the requested modes: {o['fit']} vs {o['fit_rev']} (reversed request)"
             # the same call (same values of every argument) must give the same answer whenever and however it is made
             key = vlib.jhash([s['modes'], s['normalize'], s['coords'], o['opd_in']])
             if key in first:
                 j, prev = first[key]
-                if np.abs(np.array(prev) - np.array(o['fit'])).max() > tol * sc:
+                if np.abs(np.array(prev) - np.array(o['fit'])).max() > tol_r * sc:
                     return f'{w}: same arguments as call {j + 1} but the fit changed from {prev} to {o["fit"]} (history or memory-layout dependence)'
             else: first[key] = (i, o['fit'])
     return None
